@@ -1246,6 +1246,9 @@ class Symx:
             body_arr0 = body_st.env.get(key)
             for p in live:
                 a = p.env.get(key)
+                if not isinstance(a, Arr):
+                    newarr = Arr(base.name + '@loop%d' % s['l'])
+                    break
                 ef = a.entry_func()
                 pc = sp.And(*p.conds[ncond:]) if len(p.conds) > ncond else S.true
                 for kvs, guard, term in a.defs[ndefs[key]:]:
